@@ -661,7 +661,7 @@ var matrixContexts = []string{
 var matrixContents = []string{
 	"[^1]", "[^1] [^1]", "[^u]", "![^1]", "[^1][^1]", "x[^1]y", "[^1]: z",
 	"[a]: /u", "[a]: /u \"t\"", "[a]: <u v> 't'", "[b]: /first\n[b]: /second", "[a]",
-	"`\\|`", "`a|b`", "\\|", "a \\| b", "`x\\|y` z", "`` ` ``", "`a", "a`",
+	"`\\|`", "`a|b`", "\\|", "a \\| b", "`x\\|y` z", "`x\\|y\\|z`", "`\\|\\|`", "`a\\|b` `c\\|d`", "`a\\|b\\|c\\|d` \\| `e\\|f`", "\\|\\|", "a \\| b \\| c", "``x\\|y\\|``", "`` ` ``", "`a", "a`",
 	"*a ~b* *c ~d* e *f", "*a ~b* *c ~d* *e ~f*", "**a ~~b** c~~", "_a *b_ c*", "*a [b*](u)", "~a *b~ c*", "*a **b* c**", "***a** b*", "*a _b* c_ *d", "~~a ~b~~ c~", "__a__b", "a*b*c", "a_b_c", "*", "**", "~", "~~", "~~~a~~~",
 	"<<<", ">>>", "<<<<", "<<", ">>", "--", "---", "----", "...", "....", "'''", "\"\"\"", "'a'", "\"a\"", "a's", "<<a>>", "<<<a>>>", "'", "\"", "1'2\"", "a--b---c",
 	"http://a.b/c", "www.a.b", "a@b.c", "http://a.b/c).", "www.a.b,", "<http://a.b>", "http://a.b/?q=`x`", "https://a.b/c_d_e", "www.a.b/(c)", "mailto:a@b.c", "ftp://a.b", "http://a.b/&amp;", "http://a.b/<c>", "xhttp://a.b", "http://é.b",
@@ -685,6 +685,17 @@ func matrixDocs(f func([]byte)) {
 				d += trailer
 			}
 			f([]byte(d))
+			// the same snippet twice in one hole (state kept between two occurrences)
+			if (i+j)%3 == 0 && ct != "" && !strings.Contains(ct, "\n") {
+				d2 := strings.ReplaceAll(cx, "%s", ct+" "+ct)
+				if j%2 == 0 {
+					d2 = strings.ReplaceAll(cx, "%s", ct+ct)
+				}
+				if (i+j)%2 == 1 {
+					d2 += trailer
+				}
+				f([]byte(d2))
+			}
 		}
 	}
 }
